@@ -933,8 +933,11 @@ def remap_by_types(
             names = [f for f, _ in fields]
             if all(
                 isinstance(f, str) and f.isidentifier() and not keyword.iskeyword(f) for f in names
-            ) and len(set(names)) == len(names):
-                self._found_types[t_node] = make_dataclass("dict_dataclass", fields)
+            ):
+                # A key given twice: the last one is the value of the dictionary
+                self._found_types[t_node] = make_dataclass(
+                    "dict_dataclass", list(dict(fields).items())
+                )
             return t_node
 
         def visit_Constant(self, node: ast.Constant) -> Any:
@@ -955,7 +958,8 @@ def remap_by_types(
                     if t_node.attr.lower() == "zip":
                         return t_node
                     raise ValueError(f"Key {key} not found in dict expression!!")
-                value = t_node.value.values[key_index[0]]
+                # A key given twice: the last one is the value of the dictionary
+                value = t_node.value.values[key_index[-1]]
                 self._found_types[node] = self.lookup_type(value)
             elif ((dc := self.lookup_type(t_node.value)) is not None) and is_dataclass(dc):
                 dc_types = get_type_hints(dc)
